@@ -163,6 +163,17 @@ func main() {
 		}()
 
 		extra := map[string]any{}
+		if !*noInline {
+			extra["normal_form"] = map[string]any{
+				"what": "IR rewrites applied before the rules run (inline.go, pathsense.go): calls to unexported same-package helpers that no rule names, to " +
+					"slices.Contains/ContainsFunc/Index/IndexFunc and to function literals passed to those are replaced by the callee's blocks; " +
+					"locals are named by type; reachability is path-sensitive on SSA value identity",
+				"call_sites_inlined":    prog.Inline.Sites,
+				"functions_rewritten":   prog.Inline.Functions,
+				"helpers_inlined":       prog.Inline.Callees,
+				"helpers_kept_as_calls": prog.Inline.Skipped,
+			}
+		}
 
 		res := ctx.Finish(info, *tier, seed, findings, *verif, tp.Add(-prog.LoadDur), extra, !*noEvidence)
 
